@@ -570,3 +570,113 @@ def rule_pa_redund(cx, rep, port):
     # WHERE assignment check works on literal-free text
     wh = [s for s in regex_sites(cx, port) if s.func is sp and s.pattern == '[^><!=]=[^=]']
     rep.decide(len(wh) == 1, 'WHERE assignment check', wh[0].node if wh else sp, 'a single `=` in WHERE is a parsing error', 'the WHERE single-equals check changed')
+
+
+def rule_pa_litcheck(cx, rep, port):
+    """syntactic checks of the parser (regex tests whose failure raises a parsing error) are applied to literal-free text,
+    never to text whose string literals were already re-inserted"""
+    p = cx.port(port)
+    mod = cx.engine_mod(port)
+    sp = p.func(mod, 'shallow_parse_input_query')
+    lit = set()
+    changed = True
+    while changed:
+        changed = False
+        for n in walk_no_nested(sp):
+            if isinstance(n, ast.Assign):
+                v = n.value
+                has = any(isinstance(c, ast.Call) and call_name(c) == 'combine_string_literals' for c in ast.walk(v)) or any(isinstance(x, ast.Name) and x.id in lit for x in ast.walk(v))
+                if has:
+                    for t in n.targets:
+                        for nm in _names_of_target(t):
+                            if nm not in lit:
+                                lit.add(nm)
+                                changed = True
+    n_checks = 0
+    for iff in walk_no_nested(sp):
+        if not (isinstance(iff, ast.If) and iff.body and isinstance(iff.body[-1], ast.Raise)):
+            continue
+        rx = [c for c in ast.walk(iff.test) if isinstance(c, ast.Call) and ((dotted(c.func) or '') in ('re.search', 're.match', 're.fullmatch') or (isinstance(c.func, ast.Attribute) and c.func.attr in ('exec', 'test', 'search', 'match') and isinstance(c.func.value, ast.Call) and dotted(c.func.value.func) in ('__regex__', 'RegExp', 're.compile')))]
+        for c in rx:
+            n_checks += 1
+            subject = c.args[-1] if c.args else None
+            names = names_in(subject) if subject is not None else set()
+            direct = subject is not None and any(isinstance(x, ast.Call) and call_name(x) == 'combine_string_literals' for x in ast.walk(subject))
+            if direct or (names & lit):
+                rep.violated('syntactic check `{}`'.format(node_text(iff.test, 80)), iff, 'this check runs on text whose string literals were already re-inserted (`{}`): characters inside quotes (e.g. a lone = in \'k=v\') make the query fail'.format(node_text(subject, 60)))
+            else:
+                rep.holds('syntactic check `{}`'.format(node_text(iff.test, 80)), iff, 'applied to literal-free text')
+    rep.require_count('regex checks that raise', n_checks, 1, sp)
+
+
+def rule_pa_zero(cx, rep, port):
+    """the TOP/LIMIT bound is tested for presence (is not None / hasOwnProperty), never for truthiness: 0 is a valid bound"""
+    p = cx.port(port)
+    mod = cx.engine_mod(port)
+
+    def is_bound_value(e):
+        d = dotted(e) or ''
+        if d.endswith('.top_count') or d == 'top_count':
+            return True
+        if isinstance(e, ast.Subscript) and isinstance(e.slice, ast.Constant) and e.slice.value == 'top':
+            return True
+        if isinstance(e, ast.Call) and isinstance(e.func, ast.Attribute) and e.func.attr == 'get' and e.args and isinstance(e.args[0], ast.Constant) and e.args[0].value == 'top':
+            return True
+        return False
+    n = 0
+    bad = []
+    for fd in p.funcs_in(mod):
+        for x in walk_no_nested(fd):
+            tests = []
+            if isinstance(x, (ast.If, ast.While, ast.IfExp)):
+                tests.append(x.test)
+            for t in tests:
+                operands = [t]
+                if isinstance(t, ast.BoolOp):
+                    operands = list(t.values)
+                if isinstance(t, ast.UnaryOp) and isinstance(t.op, ast.Not):
+                    operands = [t.operand]
+                for o in operands:
+                    if isinstance(o, ast.UnaryOp) and isinstance(o.op, ast.Not):
+                        o = o.operand
+                    if is_bound_value(o):
+                        bad.append((fd, o))
+                for c in ast.walk(t):
+                    if isinstance(c, ast.Compare) and is_bound_value(c.left):
+                        n += 1
+                    if isinstance(c, ast.Call) and isinstance(c.func, ast.Attribute) and c.func.attr == 'hasOwnProperty' and c.args and isinstance(c.args[0], ast.Constant) and c.args[0].value == 'top':
+                        n += 1
+            if isinstance(x, ast.BoolOp) and isinstance(x.op, ast.Or) and is_bound_value(x.values[0]):
+                bad.append((fd, x))
+    for fd, o in bad:
+        rep.violated('{}: `{}`'.format(fd.name, node_text(o, 60)), o, 'the TOP/LIMIT bound is tested by truthiness: a bound of 0 is treated as "no bound", so TOP 0 returns every record')
+    if not bad:
+        rep.holds('bound presence tests', (p.files[mod], 0), '{} presence tests of the TOP/LIMIT bound (is None / comparison / hasOwnProperty), none by truthiness'.format(n))
+    rep.require_count('bound presence tests', n + len(bad), 1, (p.files[mod], 0))
+
+
+def rule_pa_cleanorder(cx, rep, port):
+    """the trailing-semicolon strip is applied to the joined text after comment lines were dropped"""
+    p = cx.port(port)
+    mod = cx.engine_mod(port)
+    cq = p.func(mod, 'cleanup_query')
+    strips = []
+    for c in walk_no_nested(cq):
+        if isinstance(c, ast.Call) and isinstance(c.func, ast.Attribute):
+            if c.func.attr == 'rstrip' and c.args and isinstance(c.args[0], ast.Constant) and ';' in str(c.args[0].value):
+                strips.append(c)
+            if c.func.attr == 'replace' and c.args and isinstance(c.args[0], ast.Call) and dotted(c.args[0].func) == '__regex__' and ';' in c.args[0].args[0].value:
+                strips.append(c)
+    if len(strips) != 1:
+        rep.violated('semicolon strip', cq, 'cleanup_query strips the trailing semicolon {} times'.format(len(strips)))
+        return
+    recv = strips[0].func.value
+    joined = any(isinstance(x, ast.Call) and isinstance(x.func, ast.Attribute) and x.func.attr == 'join' for x in ast.walk(recv))
+    if not joined and isinstance(recv, ast.Name):
+        defs = [n for n in walk_no_nested(cq) if isinstance(n, ast.Assign) and is_name(n.targets[0], recv.id) and n.lineno < strips[0].lineno]
+        joined = bool(defs) and any(isinstance(x, ast.Call) and isinstance(x.func, ast.Attribute) and x.func.attr == 'join' for x in ast.walk(defs[-1].value))
+    rep.decide(joined, 'semicolon strip', strips[0], 'the semicolon is stripped from the joined, comment-free text', 'the trailing semicolon is stripped before comment lines are removed: a query that ends with `;` followed by comment lines keeps its semicolon')
+    # comment stripping and empty-line dropping happen per line, before joining
+    t = node_text(cq, 2000)
+    per_line = ('strip_comments(l) for l in' in t or 'map(strip_comments)' in t)
+    rep.decide(per_line, 'per-line comment strip', cq, 'comment lines are removed line by line', 'comment lines are no longer removed line by line')
